@@ -29,6 +29,7 @@ import (
 	configv1 "github.com/istio-ecosystem/authservice/config/gen/go/v1"
 	"github.com/istio-ecosystem/authservice/internal"
 	"github.com/istio-ecosystem/authservice/internal/authz"
+	inthttp "github.com/istio-ecosystem/authservice/internal/http"
 	"github.com/istio-ecosystem/authservice/internal/oidc"
 )
 
@@ -166,15 +167,19 @@ func matches(m *configv1.Match, req *envoy.CheckRequest) bool {
 // mustTriggerCheck returns true if the request must be checked by the authservice filters.
 // If any of the TriggerRules match the request path, then the request must be checked.
 func mustTriggerCheck(log telemetry.Logger, rules []*configv1.TriggerRule, req *envoy.CheckRequest) bool {
+	// Envoy sends the full request target (path?query#fragment) in the path attribute. Trigger rules apply to
+	// the path component only, so that nothing appended after '?' or '#' can change the decision.
+	path, _, _ := inthttp.GetPathQueryFragment(req.GetAttributes().GetRequest().GetHttp().GetPath())
+
 	// If there are no trigger rules, authservice checks should be triggered for all requests.
 	// If the request path is empty, (unlikely, but the piece used to match the rules) then trigger the checks.
-	if len(rules) == 0 || len(req.GetAttributes().GetRequest().GetHttp().GetPath()) == 0 {
+	if len(rules) == 0 || len(path) == 0 {
 		return true
 	}
 
 	for i, rule := range rules {
 		l := log.With("rule-index", i)
-		if matchTriggerRule(l, rule, req.GetAttributes().GetRequest().GetHttp().GetPath()) {
+		if matchTriggerRule(l, rule, path) {
 			return true
 		}
 	}
